@@ -1,4 +1,5 @@
-"""R<nn>.0 -- every name read in the property's anchor files is bound somewhere (a precondition of every other rule).
+"""R<nn>.0 -- every name read in the property's anchor files is bound somewhere, and every call of a package function or
+class can bind its arguments to the callee's parameters (preconditions of every other rule).
 
 A function whose only binding of a local was removed reads a name that nothing binds: the path raises NameError whatever the
 property says about it.  Decided per scope with the interpreter's own `symtable` (no code is run): a name that a function
@@ -55,6 +56,92 @@ def undefined_names(path: pathlib.Path) -> list[tuple[str, str, int]]:
     return out
 
 
+def _sig_of(prog: Program, target):
+    """(positional names, keyword-only names, required names, has *args, has **kwargs) of a package function, or of the
+    constructor of a package class (its own or inherited __init__; the generated one of a dataclass).  None: not known."""
+    import ast
+
+    def from_args(a: ast.arguments, skip_first: bool):
+        pos = [x.arg for x in a.posonlyargs + a.args]
+        posonly = {x.arg for x in a.posonlyargs}
+        ndef = len(a.defaults)
+        req = set(pos[: len(pos) - ndef] if ndef else pos)
+        if skip_first and pos:
+            req.discard(pos[0])
+            pos = pos[1:]
+        kwo = [x.arg for x in a.kwonlyargs]
+        req |= {x.arg for x, d in zip(a.kwonlyargs, a.kw_defaults) if d is None}
+        return pos, kwo, req, a.vararg is not None, a.kwarg is not None, posonly
+
+    if hasattr(target, "methods"):  # a class
+        cls = target
+        init = prog.lookup_method(cls, "__init__")
+        new = prog.lookup_method(cls, "__new__")
+        if new is not None:
+            return None
+        if init is not None:
+            if any(d for d in init.node.decorator_list):
+                return None
+            return from_args(init.node.args, True)
+        decos = [d for d in cls.decorators if d]
+        if any(d.endswith("dataclasses.dataclass") for d in decos) and not cls.bases:
+            pos, req = [], set()
+            for st in cls.node.body:
+                if isinstance(st, ast.AnnAssign) and isinstance(st.target, ast.Name) and "ClassVar" not in ast.unparse(st.annotation):
+                    pos.append(st.target.id)
+                    if st.value is None:
+                        req.add(st.target.id)
+                    elif isinstance(st.value, ast.Call) and ast.unparse(st.value.func).endswith("field") and not any(k.arg in ("default", "default_factory") for k in st.value.keywords):
+                        req.add(st.target.id)
+            return pos, [], req, False, False, set()
+        return None
+    f = target
+    if f.node.decorator_list and not all((d or "").startswith("functools.") or (d or "").startswith("typelib.py.compat.") for d in f.decorators):
+        return None
+    return from_args(f.node.args, f.cls is not None and not any((d or "").endswith("staticmethod") for d in f.decorators))
+
+
+def malformed_calls(prog: Program, mod) -> tuple[int, list[str]]:
+    """Calls of package functions / classes (by resolved name) whose arguments cannot bind to the callee's parameters."""
+    import ast
+
+    n, bad = 0, []
+    for node in ast.walk(mod.tree):
+        if not isinstance(node, ast.Call):
+            continue
+        name = prog.resolve_expr_name(mod, node.func)
+        if not name or not name.startswith("typelib."):
+            continue
+        target = prog.functions.get(name)
+        if target is None:
+            hit = prog.class_of(name)
+            target = hit[0] if hit else None
+        if target is None:
+            continue
+        if hasattr(target, "cls") and target.cls is not None:
+            continue  # Class.method(x): an unbound call, the receiver shifts the positions
+        sig = _sig_of(prog, target)
+        if sig is None:
+            continue
+        pos, kwo, req, va, vk, posonly = sig
+        if any(isinstance(a, ast.Starred) for a in node.args) or any(k.arg is None for k in node.keywords):
+            continue
+        n += 1
+        given = set(pos[: len(node.args)]) | {k.arg for k in node.keywords}
+        what = None
+        if len(node.args) > len(pos) and not va:
+            what = f"{len(node.args)} positional arguments for {len(pos)} parameters"
+        unknown = [k.arg for k in node.keywords if k.arg not in pos and k.arg not in kwo or k.arg in posonly]
+        if unknown and not vk:
+            what = f"unknown keyword {unknown[0]!r}"
+        missing = sorted(req - given)
+        if missing:
+            what = f"required parameter {missing[0]!r} not supplied"
+        if what:
+            bad.append(f"{mod.relpath}:{node.lineno} {name.rsplit('.', 1)[-1]}(...): {what}")
+    return n, bad
+
+
 def run(prog: Program, rep: Report, prop: str):
     rule = f"R{prop[1:]}.0"
     files = anchor_files(prop)
@@ -72,5 +159,9 @@ def run(prog: Program, rep: Report, prop: str):
         except SyntaxError as e:
             rep.undecided(rule, rel, rel, f"does not parse: {e}", detail="parses")
             continue
+        mod = next((m for m in prog.modules.values() if m.relpath == rel), None)
+        if mod is not None:
+            ncalls, badcalls = malformed_calls(prog, mod)
+            rep.check(not badcalls, rule, rel, rel, f"{ncalls} calls of package functions and classes bind to their parameters", f"a call cannot bind to its callee's parameters ({badcalls[:2]}): every path that reaches it raises TypeError (the suite takes none of them)", detail="calls-bind")
         rep.check(not bad, rule, rel, rel, "no scope reads a name that nothing binds", f"a name is read that no scope binds ({[(f, nm, ln) for f, nm, ln in bad][:3]}): the only assignment of a local was removed or a helper was renamed -- every call that reaches the statement raises NameError", detail="names-bound")
     return n
